@@ -1,0 +1,23 @@
+//go:build verif
+// +build verif
+
+package main
+
+import (
+	"bytes"
+	"crypto/rand"
+	"io/ioutil"
+	"os"
+)
+
+// With -tags verif, SPG_VERIF_TAPE names a file whose bytes replace the
+// system random source, so the output of the binary can be predicted.
+func init() {
+	if path := os.Getenv("SPG_VERIF_TAPE"); path != "" {
+		data, err := ioutil.ReadFile(path) // #nosec G304
+		if err != nil {
+			panic(err)
+		}
+		rand.Reader = bytes.NewReader(data)
+	}
+}
